@@ -690,7 +690,8 @@ func newParseOptions(b []byte) (NewOptions, error) {
 		l := int(b[i+1]) * 8
 
 		// Verify that we won't advance beyond the end of the byte slice.
-		if l > len(b[i:]) {
+		// RFC 4861 4.6: an option with length zero is invalid (and would never advance the loop).
+		if l == 0 || l > len(b[i:]) {
 			return NewOptions{}, io.ErrUnexpectedEOF
 		}
 
